@@ -917,11 +917,17 @@ func (c *Client) readResponseData(typ string) error {
 		}
 		return c.handleStatus()
 	case "FETCH":
+		if num == 0 {
+			return fmt.Errorf("in message-data: invalid message sequence number 0")
+		}
 		if !c.dec.ExpectSP() {
 			return c.dec.Err()
 		}
 		return c.handleFetch(num)
 	case "EXPUNGE":
+		if num == 0 {
+			return fmt.Errorf("in message-data: invalid message sequence number 0")
+		}
 		return c.handleExpunge(num)
 	case "SEARCH":
 		return c.handleSearch()
